@@ -5,7 +5,6 @@ import (
 	"go/constant"
 	"go/token"
 	"go/types"
-	"sort"
 	"strings"
 
 	"golang.org/x/tools/go/ssa"
@@ -400,245 +399,6 @@ func countOnPaths(fn *ssa.Function, pred func(ssa.Instruction) bool) (minC, maxC
 	return
 }
 
-// ruleShortWrite (F5 = C4): the count returned by the single Write is compared
-// with the length of the buffer that was written and a mismatch returns an error.
-func (c *Ctx) ruleShortWrite(rule string) {
-	for _, tw := range c.writeTwins(rule) {
-		fn := tw.fn
-		writes := c.fsCalls(fn, "Write")
-		for k, w := range writes {
-			construct := "File.Write"
-			if k > 0 {
-				construct = fmt.Sprintf("File.Write#%d", k+1)
-			}
-			call, ok := w.(*ssa.Call)
-			if !ok || call.Parent() != fn {
-				c.R.Violf(rule, name(fn), construct, c.IPos(w), "the byte count of the write must be checked", "write result is not available (deferred or inside a closure)")
-				continue
-			}
-			buf := call.Call.Args[0]
-			var cnt ssa.Value
-			for _, r := range *call.Referrers() {
-				if ex, ok := r.(*ssa.Extract); ok && ex.Index == 0 {
-					cnt = ex
-				}
-			}
-			good := false
-			detail := "the count result of Write is never compared with len(buffer written)"
-			if cnt != nil {
-				for _, ce := range ir.CondEdges(fn) {
-					cmp, ok := ce.Cond.(*ssa.BinOp)
-					if !ok {
-						continue
-					}
-					var other ssa.Value
-					if ir.StripConv(cmp.X) == cnt {
-						other = cmp.Y
-					} else if ir.StripConv(cmp.Y) == cnt {
-						other = cmp.X
-					} else {
-						continue
-					}
-					lc, ok := ir.StripConv(other).(*ssa.Call)
-					if !ok || ir.CallID(lc) != "builtin.len" {
-						detail = "the count is compared with something other than len(buffer)"
-						continue
-					}
-					if lc.Call.Args[0] != buf {
-						detail = "the count is compared with the length of a different value than the buffer passed to Write"
-						continue
-					}
-					// mismatch edge: n != len
-					op := cmp.Op
-					if !ce.Truth {
-						op = negate(op)
-					}
-					if op != token.NEQ && op != token.LSS && !(op == token.GTR && ir.StripConv(cmp.Y) == cnt) {
-						continue
-					}
-					if (op == token.LSS) && ir.StripConv(cmp.X) != cnt {
-						continue
-					}
-					seen, _ := ir.Reach(fn, fn.Blocks[ce.Edge.To], nil)
-					allFail := true
-					for _, r := range ir.Returns(fn) {
-						if seen[r.Block().Index] && retClass(fn, r) != "fail" {
-							allFail = false
-							detail = "the short-write branch reaches a return that may report success at " + c.IPos(r)
-						}
-					}
-					if allFail {
-						good = true
-					}
-				}
-			}
-			c.R.Check(good, rule, name(fn), construct, c.IPos(w), "a short write (n != len(buf)) must return an error", detail)
-		}
-		if len(writes) == 0 {
-			c.R.Undecf(rule, name(fn), "File.Write", "-", "the write to the variable file must be identifiable", "no Write on an afero file found in "+name(fn))
-		}
-	}
-}
-
-// ruleWriteShape: F1 one write, F2 flags, F3 buffer, F4 path for both twins.
-func (c *Ctx) ruleWriteShape() {
-	oW, _ := c.constInt("os", "O_WRONLY")
-	oRW, _ := c.constInt("os", "O_RDWR")
-	oC, _ := c.constInt("os", "O_CREATE")
-	oE, _ := c.constInt("os", "O_EXCL")
-	oA, _ := c.constInt("os", "O_APPEND")
-	oT, _ := c.constInt("os", "O_TRUNC")
-	_ = oT
-	for _, tw := range c.writeTwins("F.anchor") {
-		fn := tw.fn
-		fname := name(fn)
-		// ---- F1: exactly one Write on success paths, at most one anywhere
-		isWrite := func(i ssa.Instruction) bool {
-			call, ok := i.(ssa.CallInstruction)
-			if !ok || !call.Common().IsInvoke() || dependencyKind(call.Common().Value.Type()) != "filesystem" {
-				return false
-			}
-			switch call.Common().Method.Name() {
-			case "Write", "WriteString", "WriteAt":
-				return true
-			}
-			return false
-		}
-		minC, maxC := countOnPaths(fn, isWrite)
-		ok1, det := true, ""
-		for _, r := range ir.Returns(fn) {
-			b := r.Block().Index
-			if maxC[b] < 0 {
-				continue // unreachable (recover block)
-			}
-			if maxC[b] > 1 {
-				ok1, det = false, "a path to the return at "+c.IPos(r)+" performs more than one write on the variable file (each write is one SetVariable call)"
-			}
-			if retClass(fn, r) != "fail" && minC[b] < 1 {
-				ok1, det = false, "a path to the possibly successful return at "+c.IPos(r)+" performs no write"
-			}
-		}
-		for _, an := range fn.AnonFuncs {
-			instrsOf(an, func(i ssa.Instruction) {
-				if isWrite(i) {
-					ok1, det = false, "write to the variable file inside a closure at "+c.IPos(i)
-				}
-			})
-		}
-		c.R.Check(ok1, "F1.onewrite", fname, "File.Write", c.Pos(fn.Pos()), "exactly one write operation on the variable file on every successful path, never more than one", det)
-		// other mutating operations on the dependency
-		bad := ""
-		for _, call := range c.fsCalls(fn, "") {
-			if fsMutators[call.Common().Method.Name()] {
-				bad = call.Common().Method.Name() + " at " + c.IPos(call)
-			}
-		}
-		c.R.Check(bad == "", "F1.onewrite", fname, "other-mutators", c.Pos(fn.Pos()), "no other mutating operation on the filesystem dependency", "found "+bad)
-
-		// ---- F2: open flags
-		opens := c.fsCalls(fn, "OpenFile")
-		if len(opens) != 1 {
-			c.R.Undecf("F2.flags", fname, "OpenFile", c.Pos(fn.Pos()), "the variable file is opened with exactly one OpenFile call", fmt.Sprintf("%d OpenFile calls found", len(opens)))
-		} else {
-			open := opens[0]
-			cases, ok := c.flagCases(open.Common().Args[1], 0)
-			if !ok || len(cases) == 0 {
-				c.R.Undecf("F2.flags", fname, "OpenFile.flags", c.IPos(open), "open flags must be a finite set of constants", "flag expression is not a constant/phi/helper-return of constants")
-			} else {
-				okF, detF := true, ""
-				hasAppendCase, hasPlainCase := false, false
-				for _, fc := range cases {
-					if fc.val&3 != oW || oRW == fc.val&3 {
-						okF, detF = false, fmt.Sprintf("access mode of flag value %#x is not O_WRONLY", fc.val)
-					}
-					if fc.val&oC == 0 {
-						okF, detF = false, fmt.Sprintf("O_CREATE missing in flag value %#x", fc.val)
-					}
-					if fc.val&oE != 0 {
-						okF, detF = false, fmt.Sprintf("O_EXCL set in flag value %#x", fc.val)
-					}
-					if fc.val&oA != 0 {
-						hasAppendCase = true
-					} else {
-						hasPlainCase = true
-					}
-				}
-				if !hasAppendCase {
-					okF, detF = false, "no flag value carries O_APPEND: append writes (EFI_VARIABLE_APPEND_WRITE) would overwrite"
-				}
-				if !hasPlainCase {
-					okF, detF = false, "every flag value carries O_APPEND: plain writes would append"
-				}
-				// iff: append-bit cases originate behind the append edge, plain cases do not
-				if okF {
-					for _, fc := range cases {
-						if fc.from == nil || fc.fn == nil {
-							okF, detF = false, "cannot locate the origin of a flag value"
-							break
-						}
-						edges := c.appendCondEdges(fc.fn)
-						if len(edges) == 0 {
-							okF, detF = false, "no test of attrs&EFI_VARIABLE_APPEND_WRITE found where the flags are chosen"
-							break
-						}
-						behind := false
-						for _, e := range edges {
-							if fc.from.Index == e.To || ir.EdgeDominates(fc.fn, e, fc.from) {
-								behind = true
-							}
-						}
-						if fc.val&oA != 0 && !behind {
-							okF, detF = false, "O_APPEND chosen on a path not guarded by the APPEND_WRITE attribute"
-						}
-						if fc.val&oA == 0 && behind {
-							okF, detF = false, "flags without O_APPEND chosen although the APPEND_WRITE attribute is set"
-						}
-					}
-				}
-				c.R.Check(okF, "F2.flags", fname, "OpenFile.flags", c.IPos(open), "file opened write-only with create, without excl, in append mode iff the APPEND_WRITE attribute is set", detF)
-			}
-			// ---- F4: path
-			sl := c.Slicer().Slice(open.Common().Args[0])
-			var miss []string
-			if !ir.HasGlobal(sl, M+"/efi/attributes.Efivars") {
-				miss = append(miss, "efivars directory variable")
-			}
-			if len(ir.CallsIn(sl, M+"/efi/util.EFIGUID.Format")) == 0 {
-				miss = append(miss, "canonical GUID text (EFIGUID.Format)")
-			}
-			nameP, guidP := paramByType(fn, "string"), paramByNamed(fn, M+"/efi/util.EFIGUID")
-			if nameP == nil || !sl[nameP] {
-				miss = append(miss, "variable name parameter")
-			}
-			if guidP == nil || !sl[guidP] {
-				miss = append(miss, "GUID parameter")
-			}
-			fmtOK := false
-			for v := range sl {
-				if k, ok := v.(*ssa.Const); ok && k.Value != nil && k.Value.Kind() == constant.String && constant.StringVal(k.Value) == "%s-%s" {
-					fmtOK = true
-				}
-			}
-			if !fmtOK {
-				miss = append(miss, `"%s-%s" name-GUID format`)
-			}
-			for _, bad := range ir.CallsIn(sl, "strings.ToUpper", "strings.ToLower", "strings.Title", "strings.ToTitle", "strings.Replace", "strings.ReplaceAll", "strings.TrimSpace", "strings.Trim") {
-				miss = append(miss, "path passes through "+ir.CallID(bad))
-			}
-			c.R.Check(len(miss) == 0, "F4.path", fname, "OpenFile.name", c.IPos(open), "file name is <efivars dir>/<Name>-<canonical lower-case GUID>", "missing: "+strings.Join(miss, ", "))
-		}
-		// ---- F3: buffer = LE32(attrs) ++ value
-		ws := c.fsCalls(fn, "Write")
-		if len(ws) == 1 {
-			w := ws[0]
-			buf := w.Common().Args[0]
-			c.judgeWriteBuffer(fn, w, buf)
-		} else if len(ws) != 1 {
-			c.R.Violf("F3.buffer", fname, "File.Write.arg", c.Pos(fn.Pos()), "the single write carries attributes followed by the value", fmt.Sprintf("%d Write calls found", len(ws)))
-		}
-	}
-}
-
 func paramByType(fn *ssa.Function, basic string) *ssa.Parameter {
 	for _, p := range fn.Params {
 		if b, ok := p.Type().(*types.Basic); ok && b.Name() == basic {
@@ -669,55 +429,6 @@ func paramBytes(fn *ssa.Function) *ssa.Parameter {
 		}
 	}
 	return nil
-}
-
-// judgeWriteBuffer: buf is append(A, b...) with b the value parameter and A
-// the 4-byte little-endian encoding of the attrs parameter, nothing else.
-func (c *Ctx) judgeWriteBuffer(fn *ssa.Function, w ssa.CallInstruction, buf ssa.Value) {
-	fname := name(fn)
-	attrsP, valP := paramByNamed(fn, M+"/efi/attributes.Attributes"), paramBytes(fn)
-	if attrsP == nil || valP == nil {
-		c.R.Undecf("F3.buffer", fname, "File.Write.arg", c.IPos(w), "writer takes an attributes and a value parameter", "parameters not found")
-		return
-	}
-	app, ok := buf.(*ssa.Call)
-	if !ok || ir.CallID(app) != "builtin.append" || len(app.Call.Args) != 2 {
-		c.R.Undecf("F3.buffer", fname, "File.Write.arg", c.IPos(w), "write buffer is built as append(attribute bytes, value...)", "buffer is not a direct append(...) expression; idiom not recognised")
-		return
-	}
-	head, tail := app.Call.Args[0], app.Call.Args[1]
-	var problems []string
-	if tail != ssa.Value(valP) {
-		problems = append(problems, "the appended tail is not the value parameter itself")
-	}
-	hs := c.Slicer().Slice(head)
-	if !hs[attrsP] {
-		problems = append(problems, "the head of the buffer does not derive from the attrs parameter")
-	}
-	if hs[valP] {
-		problems = append(problems, "the head of the buffer also derives from the value parameter")
-	}
-	if !ir.HasGlobal(hs, "encoding/binary.LittleEndian") {
-		problems = append(problems, "attributes are not encoded with binary.LittleEndian")
-	}
-	if ir.HasGlobal(hs, "encoding/binary.BigEndian") {
-		problems = append(problems, "attributes pass through binary.BigEndian")
-	}
-	// the attrs value must reach the encoder unmodified: no arithmetic on it
-	for v := range hs {
-		if b, ok := v.(*ssa.BinOp); ok && v.Parent() == fn {
-			if bs := c.Slicer().Slice(b); bs[attrsP] {
-				switch b.Op {
-				case token.AND, token.AND_NOT, token.OR, token.XOR, token.SHL, token.SHR:
-					problems = append(problems, "the attribute mask is modified ("+b.Op.String()+") before it is written")
-				}
-			}
-		}
-	}
-	// attrs stored/reassigned before use (attrs &^= X creates a new SSA value; the
-	// head must derive from the parameter directly, not only from a modified copy)
-	c.R.Check(len(problems) == 0, "F3.buffer", fname, "File.Write.arg", c.IPos(w),
-		"the write buffer is the 4-byte little-endian attribute mask followed by the value, and nothing else", strings.Join(problems, "; "))
 }
 
 // ruleReadShape: F6 gate, F7 read shape, F8 argument mapping, F11 fresh buffer.
@@ -758,24 +469,22 @@ func (c *Ctx) ruleReadShape() {
 			}
 			c.R.Check(good, "F6.gate", fname, "Unmarshal<-Equal", c.IPos(u), "decoding happens only behind required.Equal(stored) == true", detail)
 		}
-		// Equal itself is (a & b) == a
+		// Equal itself is the subset test: every bit of a is set in b
 		if eq := c.Fn("F6.gate", "efi/attributes.(Attributes).Equal"); eq != nil {
-			ok := false
-			for _, r := range ir.Returns(eq) {
-				if cmp, isB := r.Results[0].(*ssa.BinOp); isB && cmp.Op == token.EQL {
-					and, isAnd := cmp.X.(*ssa.BinOp)
-					rhs := cmp.Y
-					if !isAnd {
-						and, isAnd = cmp.Y.(*ssa.BinOp)
-						rhs = cmp.X
-					}
-					if isAnd && and.Op == token.AND && rhs == ssa.Value(eq.Params[0]) &&
-						(and.X == ssa.Value(eq.Params[0]) && and.Y == ssa.Value(eq.Params[1]) || and.X == ssa.Value(eq.Params[1]) && and.Y == ssa.Value(eq.Params[0])) {
-						ok = true
-					}
-				}
+			what := "Attributes.Equal is the subset test (a & b) == a"
+			rets := ir.Returns(eq)
+			g, ok := [4]bool{}, false
+			if len(rets) == 1 && len(rets[0].Results) == 1 && len(eq.Params) == 2 {
+				g, ok = bitPredicate(rets[0].Results[0], eq.Params[0], eq.Params[1])
 			}
-			c.R.Check(ok, "F6.gate", name(eq), "subset-test", c.Pos(eq.Pos()), "Attributes.Equal is the subset test (a & b) == a", "body is not (a & b) == a")
+			switch {
+			case !ok:
+				c.R.Infof("F6.gate", name(eq), "subset-test", c.Pos(eq.Pos()), "not decided for this shape: the body is not a single comparison of bitwise expressions over the two masks")
+			default:
+				// per bit: a -> b
+				want := [4]bool{true, true, false, true}
+				c.R.Check(g == want, "F6.gate", name(eq), "subset-test", c.Pos(eq.Pos()), what, fmt.Sprintf("per bit position the body requires %s, want a implies b", truthTable(g)))
+			}
 		}
 		// false edge returns ErrIncorrectAttributes
 		okErr := false
@@ -795,86 +504,13 @@ func (c *Ctx) ruleReadShape() {
 		if fn == nil {
 			continue
 		}
-		fname := name(fn)
-		var reads []*ssa.Call
-		instrsOf(fn, func(i ssa.Instruction) {
-			if call, ok := i.(*ssa.Call); ok && ir.CallID(call) == "encoding/binary.Read" {
-				reads = append(reads, call)
-			}
-		})
-		sort.SliceStable(reads, func(i, j int) bool { return reads[i].Pos() < reads[j].Pos() })
-		ok, det := len(reads) == 2, fmt.Sprintf("%d binary.Read calls (want: attributes, then remainder)", len(reads))
-		if ok {
-			for _, rd := range reads {
-				if !isGlobalLoad(rd.Call.Args[1], "encoding/binary.LittleEndian") {
-					ok, det = false, "a read does not use binary.LittleEndian"
-				}
-			}
-			p0 := boxedValues(reads[0].Call.Args[2])
-			if len(p0) != 1 || ir.NamedTypeID(p0[0].Type()) != M+"/efi/attributes.Attributes" {
-				ok, det = false, "first read does not fill an attributes.Attributes (4 bytes)"
-			}
-			// second read fills make([]byte, size - 4)
-			sl := c.Slicer().Slice(reads[1].Call.Args[2])
-			foundMake := false
-			for v := range sl {
-				if mk, isMk := v.(*ssa.MakeSlice); isMk {
-					if sub, isSub := ir.StripConv(mk.Len).(*ssa.BinOp); isSub && sub.Op == token.SUB {
-						ss := c.Slicer().Slice(sub.Y)
-						if k, isK := evalConst(sub.Y); isK && k == 4 || ir.HasGlobal(ss, M+"/efi/attributes.SizeofAttributes") {
-							foundMake = true
-						}
-					}
-				}
-			}
-			if !foundMake {
-				ok, det = false, "second read does not fill a buffer of size-4 bytes"
-			}
-			// both reads' errors gate the success return
-			for _, r := range ir.Returns(fn) {
-				if retClass(fn, r) == "fail" {
-					continue
-				}
-				for _, rd := range reads {
-					e, kept := errValue(rd)
-					if !kept || e == nil || !successDominates(fn, e, r.Block()) {
-						ok, det = false, "success return at "+c.IPos(r)+" is not behind the nil-error edge of both reads"
-					}
-				}
-			}
-		}
-		c.R.Check(ok, "F7.read", fname, "attrs-then-rest", c.Pos(fn.Pos()), "reads 4 little-endian attribute bytes, then the remainder, success only if both reads succeed", det)
-		// F11: returned buffer is fresh
-		fresh := true
-		for _, r := range ir.Returns(fn) {
-			if len(r.Results) < 2 || ir.IsNilConst(r.Results[1]) {
-				continue
-			}
-			if call, isC := r.Results[1].(*ssa.Call); !isC || ir.CallID(call) != "bytes.NewBuffer" && ir.CallID(call) != "bytes.NewBufferString" {
-				fresh = false
-			}
-		}
-		c.R.Check(fresh, "F11.fresh", fname, "returned-buffer", c.Pos(fn.Pos()), "the returned value buffer is freshly constructed on every call", "a return hands out a buffer that is not constructed in this call (shared/cached buffers are drained by the first reader)")
+		c.judgeReadShape(fn)
+		c.judgeFresh(fn, "the returned value buffer is freshly constructed on every call", "a return hands out a buffer that is not constructed in this call (shared/cached buffers are drained by the first reader)")
 	}
 	for _, s := range []string{"efivarfs/fswrapper.(*FSWrapper).ReadEfivarsFile", "efi/attributes.ReadEfivarsFile", "efivarfs/fswrapper.(*FSWrapper).ReadEfivarsWithGuid", "efi/attributes.ReadEfivarsWithGuid"} {
-		fn := c.Fn("F11.fresh", s)
-		if fn == nil {
-			continue
+		if fn := c.Fn("F11.fresh", s); fn != nil {
+			c.judgeFresh(fn, "the returned value buffer is the parser's freshly constructed buffer", "a return hands out a buffer that does not come from the parser's fresh result")
 		}
-		fresh, det := true, ""
-		for _, r := range ir.Returns(fn) {
-			if len(r.Results) < 2 {
-				continue
-			}
-			v := r.Results[1]
-			if ir.IsNilConst(v) {
-				continue
-			}
-			if !c.freshBufferValue(fn, r, v, 0) {
-				fresh, det = false, "return at "+c.IPos(r)+" hands out a buffer that does not come from the parser's fresh result"
-			}
-		}
-		c.R.Check(fresh, "F11.fresh", name(fn), "returned-buffer", c.Pos(fn.Pos()), "the returned value buffer is the parser's freshly constructed buffer", det)
 	}
 	// ---- F8: argument mapping in WriteVar
 	if fn := c.Fn("F8.args", "efivarfs.(*EFIFS).WriteVar"); fn != nil {
@@ -933,47 +569,393 @@ func (c *Ctx) ruleReadShape() {
 	}
 }
 
-// freshBufferValue: v is (an extract of) a call to a parser twin / reader in the
-// same family, or a named-result cell fed by one.
-func (c *Ctx) freshBufferValue(fn *ssa.Function, r *ssa.Return, v ssa.Value, depth int) bool {
-	if depth > 4 {
+// streamRead is one consumption of the stream in a deep view.
+type streamRead struct {
+	call  *ssa.Call
+	fr    *frame
+	width Affine
+	order string // LE/BE for binary.Read, "" for raw reads
+	// target: the Alloc the value is decoded into (binary.Read) or the buffer object filled (ReadFull)
+	target dval
+	raw    bool
+}
+
+// streamReads lists the reads from the stream parameter, in program order
+// (complete=false if the stream is consumed in a way that is not modelled).
+func (d *deepView) streamReads(stream *ssa.Parameter) (reads []streamRead, complete bool) {
+	complete = true
+	isStream := func(v ssa.Value, fr *frame) bool {
+		r := d.objectOf(v, fr)
+		return r.fr == d.root && r.v == ssa.Value(stream)
+	}
+	for _, di := range d.order {
+		call, ok := di.i.(*ssa.Call)
+		if !ok {
+			continue
+		}
+		args := ir.CallArgs(call)
+		uses := false
+		for _, a := range args {
+			if _, isIface := a.Type().Underlying().(*types.Interface); isIface && isStream(a, di.fr) {
+				uses = true
+			}
+		}
+		if !uses {
+			continue
+		}
+		switch ir.CallID(call) {
+		case "encoding/binary.Read":
+			t := ir.StripIface(args[2])
+			tr := d.resolve(t, di.fr)
+			w := newAffine()
+			pt, isPtr := tr.v.Type().Underlying().(*types.Pointer)
+			switch {
+			case !isPtr:
+				complete = false
+				continue
+			case isByteSlice(pt.Elem()):
+				// *[]byte: as many bytes as the slice is long
+				var buf dval
+				n := 0
+				if a, isA := tr.v.(*ssa.Alloc); isA {
+					d.eachStoreTo(a, tr.fr, func(st *ssa.Store, f *frame) { buf, n = d.resolve(st.Val, f), n+1 })
+				}
+				if mk, isMk := buf.v.(*ssa.MakeSlice); n == 1 && isMk {
+					w = d.affine(mk.Len, buf.fr, nil, 0)
+					reads = append(reads, streamRead{call: call, fr: di.fr, width: w, order: byteOrderOf(d.resolve(args[1], di.fr).v), target: buf, raw: true})
+					continue
+				}
+				complete = false
+				continue
+			default:
+				n := binarySize(pt.Elem())
+				if n < 0 {
+					complete = false
+					continue
+				}
+				w.K = int64(n)
+				reads = append(reads, streamRead{call: call, fr: di.fr, width: w, order: byteOrderOf(d.resolve(args[1], di.fr).v), target: tr})
+			}
+		case "io.ReadFull", "io.ReadAtLeast":
+			b := d.resolve(args[1], di.fr)
+			var w Affine
+			var obj dval
+			switch x := b.v.(type) {
+			case *ssa.MakeSlice:
+				w, obj = d.affine(x.Len, b.fr, nil, 0), b
+			case *ssa.Slice:
+				a, isA := x.X.(*ssa.Alloc)
+				if !isA || x.Low != nil || x.High != nil {
+					complete = false
+					continue
+				}
+				n, ok := byteLen(a)
+				if !ok {
+					complete = false
+					continue
+				}
+				w, obj = constAffine(n), dval{a, b.fr}
+			default:
+				complete = false
+				continue
+			}
+			reads = append(reads, streamRead{call: call, fr: di.fr, width: w, target: obj, raw: true})
+		default:
+			// the stream handed to a library helper is followed through its frame
+			if callee := calleeOrClosure2(call); callee != nil && d.inlinable(callee) && d.frameOfCall(di.fr, call) != nil {
+				continue
+			}
+			complete = false
+		}
+	}
+	return reads, complete
+}
+
+// judgeReadShape (F7): the variable file is parsed as 4 little-endian attribute
+// bytes followed by the remainder; success only if both reads succeed.
+func (c *Ctx) judgeReadShape(fn *ssa.Function) {
+	fname := name(fn)
+	what := "reads 4 little-endian attribute bytes, then the remainder, success only if both reads succeed"
+	dv := c.deepViewOf(fn, 3)
+	streamP := paramByNamed(fn, "io.Reader")
+	sizeP := paramByType(fn, "int")
+	if streamP == nil || sizeP == nil {
+		c.R.Undecf("F7.read", fname, "attrs-then-rest", c.Pos(fn.Pos()), what, "the parser does not take (io.Reader, size int)")
+		return
+	}
+	reads, complete := dv.streamReads(streamP)
+	if !complete {
+		c.R.Infof("F7.read", fname, "attrs-then-rest", c.Pos(fn.Pos()), "not decided for this shape: the stream is consumed by something other than encoding/binary.Read / io.ReadFull on resolvable buffers")
+		return
+	}
+	var bad []string
+	if len(reads) != 2 {
+		c.R.Violf("F7.read", fname, "attrs-then-rest", c.Pos(fn.Pos()), what, fmt.Sprintf("%d reads from the file (want: attributes, then remainder)", len(reads)))
+		return
+	}
+	r1, r2 := reads[0], reads[1]
+	if !r1.width.isConst() || r1.width.K != 4 {
+		bad = append(bad, "the first read takes "+r1.width.String()+" bytes, want the 4 attribute bytes")
+	}
+	// second read: size - 4
+	rest := r2.width.clone()
+	okRest := false
+	if rest.T["param:"+sizeP.Name()] == 1 {
+		delete(rest.T, "param:"+sizeP.Name())
+		switch {
+		case len(rest.T) == 0 && rest.K == -4:
+			okRest = true
+		case len(rest.T) == 1 && rest.K == 0:
+			for sym, cf := range rest.T {
+				if cf == -1 && isGlobalLoad(ir.StripConv(rest.Sym[sym]), M+"/efi/attributes.SizeofAttributes") {
+					okRest = true
+				}
+			}
+		}
+	}
+	if !okRest {
+		bad = append(bad, "the second read takes "+r2.width.String()+" bytes, want size - 4")
+	}
+	// results at the successful returns
+	for _, r := range ir.Returns(fn) {
+		if retClass(fn, r) == "fail" || len(r.Results) < 3 {
+			continue
+		}
+		// attributes: the little-endian decode of the first read
+		av := dv.resolveConv(r.Results[0], dv.root)
+		okA := false
+		switch x := av.v.(type) {
+		case *ssa.UnOp:
+			if x.Op == token.MUL && !r1.raw && r1.order == "LE" && dv.resolve(x.X, av.fr).same(r1.target) {
+				okA = true
+			}
+		case *ssa.Call:
+			if w, order, put, ok := uintCallWidth(ir.CallID(x)); ok && !put && w == 4 && order == "LE" && r1.raw {
+				args := ir.CallArgs(x)
+				if off, isBuf := dv.sliceBaseObj(args[len(args)-1], av.fr, r1.target); isBuf && off.isConst() && off.K == 0 {
+					okA = true
+				}
+			}
+		}
+		if !okA {
+			bad = append(bad, "the attributes returned at "+c.IPos(r)+" are not the little-endian decode of the 4 bytes read first")
+		}
+		// value: a buffer over the bytes of the second read
+		bv := dv.resolveConv(r.Results[1], dv.root)
+		okB := false
+		if call, isC := bv.v.(*ssa.Call); isC && (ir.CallID(call) == "bytes.NewBuffer") {
+			if dv.resolve(call.Call.Args[0], bv.fr).same(r2.target) {
+				okB = true
+			}
+		}
+		if !okB {
+			bad = append(bad, "the value returned at "+c.IPos(r)+" is not a buffer over the bytes of the second read")
+		}
+	}
+	// both reads' errors gate the success returns of the function they are in
+	for _, rd := range reads {
+		rf := rd.fr.fn
+		e, kept := errValue(rd.call)
+		for _, r := range ir.Returns(rf) {
+			if retClass(rf, r) == "fail" || r.Block() == rf.Recover {
+				continue
+			}
+			if !kept || e == nil || !successDominates(rf, e, r.Block()) {
+				bad = append(bad, "success return at "+c.IPos(r)+" is not behind the nil-error edge of the read at "+c.IPos(rd.call))
+			}
+		}
+	}
+	c.R.Check(len(bad) == 0, "F7.read", fname, "attrs-then-rest", c.Pos(fn.Pos()), what, strings.Join(bad, "; "))
+}
+
+// sliceBaseObj: v is obj[lo:...] for a buffer object (an Alloc array or a MakeSlice).
+func (d *deepView) sliceBaseObj(v ssa.Value, fr *frame, obj dval) (Affine, bool) {
+	r := d.resolve(v, fr)
+	if r.same(obj) {
+		return constAffine(0), true
+	}
+	if sl, ok := r.v.(*ssa.Slice); ok {
+		if a, isA := sl.X.(*ssa.Alloc); isA && (dval{a, r.fr}).same(obj) {
+			if sl.Low == nil {
+				return constAffine(0), true
+			}
+			return d.affine(sl.Low, r.fr, nil, 0), true
+		}
+		inner, ok := d.sliceBaseObj(sl.X, r.fr, obj)
+		if !ok {
+			return Affine{}, false
+		}
+		if sl.Low == nil {
+			return inner, true
+		}
+		return inner.add(d.affine(sl.Low, r.fr, nil, 0), 1), true
+	}
+	return Affine{}, false
+}
+
+// judgeFresh (F11): every buffer the function returns is constructed during the
+// call (in the function or in the library helpers it returns from).
+func (c *Ctx) judgeFresh(fn *ssa.Function, what, why string) {
+	dv := c.deepViewOf(fn, 4)
+	fresh, det := true, ""
+	for _, r := range ir.Returns(fn) {
+		if len(r.Results) < 2 || r.Block() == fn.Recover {
+			continue
+		}
+		if !dv.freshBuffer(r.Results[1], dv.root, 0) {
+			fresh, det = false, "return at "+c.IPos(r)+": "+why
+		}
+	}
+	c.R.Check(fresh, "F11.fresh", name(fn), "returned-buffer", c.Pos(fn.Pos()), what, det)
+}
+
+func (d *deepView) freshBuffer(v ssa.Value, fr *frame, depth int) bool {
+	if depth > 10 {
 		return false
 	}
 	if ir.IsNilConst(v) {
 		return true
 	}
-	switch x := v.(type) {
-	case *ssa.Extract:
-		if call, ok := x.Tuple.(*ssa.Call); ok {
-			id := ir.CallID(call)
-			return strings.HasSuffix(id, ".ParseEfivars") || strings.HasSuffix(id, ".ReadEfivarsFile") || strings.HasSuffix(id, ".ReadEfivarsWithGuid")
-		}
-	case *ssa.Call:
-		return ir.CallID(x) == "bytes.NewBuffer"
-	case *ssa.Phi:
-		for _, e := range x.Edges {
-			if !c.freshBufferValue(fn, r, e, depth+1) {
-				return false
-			}
-		}
+	r := d.resolveConv(v, fr)
+	if ir.IsNilConst(r.v) {
 		return true
-	case *ssa.UnOp:
-		if a, ok := x.X.(*ssa.Alloc); ok && x.Op == token.MUL {
-			for _, f := range withAnon(fn) {
-				okAll := true
-				instrsOf(f, func(i ssa.Instruction) {
-					if st, isSt := i.(*ssa.Store); isSt && (st.Addr == ssa.Value(a) || cellOf(st.Addr) == ssa.Value(a)) {
-						if !c.freshBufferValue(fn, r, st.Val, depth+1) {
-							okAll = false
-						}
-					}
-				})
-				if !okAll {
+	}
+	switch x := r.v.(type) {
+	case *ssa.Call:
+		id := ir.CallID(x)
+		if id == "bytes.NewBuffer" || id == "bytes.NewBufferString" {
+			return true
+		}
+		// a library callee with several returns: each of them
+		if child := d.frameOfCall(r.fr, x); child != nil && child.fn.Signature.Results().Len() == 1 {
+			for _, ret := range ir.Returns(child.fn) {
+				if !d.freshBuffer(ret.Results[0], child, depth+1) {
 					return false
 				}
 			}
 			return true
 		}
+	case *ssa.Extract:
+		if call, ok := x.Tuple.(*ssa.Call); ok {
+			if child := d.frameOfCall(r.fr, call); child != nil {
+				for _, ret := range ir.Returns(child.fn) {
+					if x.Index >= len(ret.Results) || !d.freshBuffer(ret.Results[x.Index], child, depth+1) {
+						return false
+					}
+				}
+				return true
+			}
+		}
+	case *ssa.Alloc:
+		return ir.NamedTypeID(x.Type()) == "bytes.Buffer"
+	case *ssa.Phi:
+		for _, e := range x.Edges {
+			if e != ssa.Value(x) && !d.freshBuffer(e, r.fr, depth+1) {
+				return false
+			}
+		}
+		return true
+	case *ssa.UnOp:
+		if x.Op == token.MUL {
+			cell := d.resolve(x.X, r.fr)
+			if a, ok := cell.v.(*ssa.Alloc); ok {
+				okAll, n := true, 0
+				d.eachStoreTo(a, cell.fr, func(st *ssa.Store, f *frame) {
+					n++
+					if !d.freshBuffer(st.Val, f, depth+1) {
+						okAll = false
+					}
+				})
+				return okAll && n > 0
+			}
+		}
 	}
 	return false
+}
+
+// bitTable: the value of a bitwise expression at one bit position, as a truth
+// table over (a_i, b_i), index a<<1|b.
+func bitTable(v ssa.Value, a, b *ssa.Parameter, depth int) ([4]bool, bool) {
+	var t [4]bool
+	if depth > 12 {
+		return t, false
+	}
+	v = ir.StripConv(v)
+	switch x := v.(type) {
+	case *ssa.Parameter:
+		switch x {
+		case a:
+			return [4]bool{false, false, true, true}, true
+		case b:
+			return [4]bool{false, true, false, true}, true
+		}
+	case *ssa.Const:
+		if n, ok := ir.ConstInt(x); ok {
+			if n == 0 {
+				return t, true
+			}
+			if n == -1 || n == 0xFFFFFFFF {
+				return [4]bool{true, true, true, true}, true
+			}
+		}
+	case *ssa.UnOp:
+		if x.Op == token.XOR {
+			in, ok := bitTable(x.X, a, b, depth+1)
+			for i := range in {
+				in[i] = !in[i]
+			}
+			return in, ok
+		}
+	case *ssa.BinOp:
+		l, ok1 := bitTable(x.X, a, b, depth+1)
+		r, ok2 := bitTable(x.Y, a, b, depth+1)
+		if !ok1 || !ok2 {
+			return t, false
+		}
+		for i := range t {
+			switch x.Op {
+			case token.AND:
+				t[i] = l[i] && r[i]
+			case token.OR:
+				t[i] = l[i] || r[i]
+			case token.XOR:
+				t[i] = l[i] != r[i]
+			case token.AND_NOT:
+				t[i] = l[i] && !r[i]
+			default:
+				return t, false
+			}
+		}
+		return t, true
+	}
+	return t, false
+}
+
+// bitPredicate: v is X == Y over bitwise expressions; the predicate that must
+// hold at every bit position.
+func bitPredicate(v ssa.Value, a, b *ssa.Parameter) ([4]bool, bool) {
+	var g [4]bool
+	cmp, ok := v.(*ssa.BinOp)
+	if !ok || cmp.Op != token.EQL {
+		return g, false
+	}
+	l, ok1 := bitTable(cmp.X, a, b, 0)
+	r, ok2 := bitTable(cmp.Y, a, b, 0)
+	if !ok1 || !ok2 {
+		return g, false
+	}
+	for i := range g {
+		g[i] = l[i] == r[i]
+	}
+	return g, true
+}
+
+func truthTable(g [4]bool) string {
+	var p []string
+	for i, v := range g {
+		if v {
+			p = append(p, fmt.Sprintf("(a=%d,b=%d)", i>>1, i&1))
+		}
+	}
+	return "{" + strings.Join(p, " ") + "} allowed"
 }
